@@ -18,6 +18,7 @@ ASSUMPTIONS = [
     "layer 2 (every call, also failed children assignments with rollbacks): the forest changes only between a _pre_detach/_post_detach pair (node leaves old parent) or a _pre_attach/_post_attach pair (node becomes last child of new parent)",
     "layer 3: in-hook snapshots show the documented before/after states",
     "hook logs of failed children assignments are not prescribed by the statement; only layers 2 and 3 apply to them",
+    "calls in which a hook edits the tree itself (plan 'evict': the hook detaches the first other child of its parent argument) are judged by layer 3 and link consistency only",
 ]
 CLASS_SPECS = ["HNM", "HLM", "HNode", "HDictLM", ["HNode", "HAnyNode", "HSymlink", "HNM"], ["HLM", "HDictLM"]]
 
@@ -40,13 +41,13 @@ def occurrences(state, n):
     return [p for p, (_, kids) in enumerate(state) for c in kids if c == n]
 
 
-def check_brackets(step):
-    """Layers 2 and 3 over the snapshots taken at the hook invocations."""
+def check_brackets(step, layer2=True):
+    """Layers 2 and 3 over the snapshots taken at the hook invocations (layer2=False: only what each hook observes)."""
     frames = [step.pre] + step.snaps + [step.post]
     log = step.log
     raised = set(step.raised)
     ctx = "%s plan=%s on %s log=%s" % (step.op, step.plan, step.pre, log)
-    if frames[0] != frames[1]:
+    if layer2 and frames[0] != frames[1]:
         raise Violation("change-outside-brackets", "forest changed before the first hook (or without any hook): %s -> %s; %s" % (frames[0], frames[1], ctx))
     for i, entry in enumerate(log):
         kind, n, arg = entry
@@ -62,6 +63,8 @@ def check_brackets(step):
         elif kind == "post_attach":
             if here[n][0] != arg or occurrences(here, n) != [arg] or here[arg][1][-1] != n:
                 raise Violation("in-hook-state", "_post_attach(%s, %s) does not see the node as last child of the new parent: %s; %s" % (n, arg, here, ctx))
+        elif not layer2:
+            pass  # a tree-editing hook changes what the *_children wrappers can expect to see
         elif kind == "pre_detach_children":
             if here[n][1] != arg:
                 raise Violation("in-hook-state", "_pre_detach_children(%s, %s) is not given the current children %s; %s" % (n, arg, here[n][1], ctx))
@@ -76,6 +79,8 @@ def check_brackets(step):
             if here[n][1] != arg:
                 raise Violation("in-hook-state", "_post_attach_children(%s, %s) sees children %s; %s" % (n, arg, here[n][1], ctx))
         # layer 2: what may change until the next hook / the end of the call
+        if not layer2:
+            continue
         if kind == "pre_detach" and not fired:
             follows = log[i + 1] if i + 1 < len(log) else None
             if follows != ["post_detach", n, arg]:
@@ -163,10 +168,24 @@ def check_case(case, acc):
         op = step.op
         plain = mut.op_is_plain(op)
         ctx = "%s plan=%s on %s" % (op, step.plan, step.pre)
+        if isinstance(step.exc, AssertionError) and step.plan.get("evict"):
+            # with ANYTREE_ASSERTIONS=1 the library re-checks 'all requested children are attached' after the loop; a hook
+            # that evicts one of them makes that optional self-check fail - the hook's doing, outside this property
+            acc.note("evicting_hook_trips_optional_self_check")
+            return
         if isinstance(step.exc, AssertionError):
             raise Violation("internal-assertion", "%s: %r" % (ctx, step.exc))
         if isinstance(step.exc, RecursionError):
             acc.note("calls_ending_in_RecursionError_not_bracket_checked")  # unbounded rollback recursion, see KF-C03-4
+            return
+        if step.plan.get("evict"):
+            # a hook of this call edits the tree itself (nested structural call): the prescribed log no longer applies,
+            # but every hook must still observe the documented before/after state, and the links must stay consistent
+            check_brackets(step, layer2=False)
+            problem = mut.consistency_problem(universe, rec.labels)
+            if problem:
+                raise Violation("in-hook-state", "%s: after a call whose hook evicted a sibling: %s" % (ctx, problem))
+            stats["evicting"] = stats.get("evicting", 0) + 1
             return
         check_brackets(step)
         if plain and step.exc is None:
@@ -204,6 +223,7 @@ def check_case(case, acc):
     acc.tag("parent_assignments_aborted_by_hook", stats["aborted_parent"])
     acc.tag("parent_assignments_aborted_by_post_hook", stats["posthook"])
     acc.tag("failed_children_calls_bracket_checked", stats["failed_children"])
+    acc.tag("calls_with_a_tree_editing_hook", stats.get("evicting", 0))
 
 
 def plan(tier, seed):
@@ -260,7 +280,7 @@ def run_task(task, acc):
 
         return acc.run_hypothesis(check_case, blind(), task["examples"], task["seed"])
     if task["engine"] == "enum":
-        cases = mut.enum_fault_cases(task["spec"], task["n"], task["index"], task["count"], fault_hooks=mut.HOOKS, pairs=task["pairs"], invalid=True, maxlen=task["maxlen"], routes=task["routes"])
+        cases = mut.enum_fault_cases(task["spec"], task["n"], task["index"], task["count"], fault_hooks=mut.HOOKS, pairs=task["pairs"], invalid=True, maxlen=task["maxlen"], routes=task["routes"], evict=True)
         acc.run_enum(check_case, _no_bad_for_lm(cases, mut.family_of(task["spec"])))
     else:
         from hypothesis import strategies as st
@@ -268,7 +288,7 @@ def run_task(task, acc):
         @st.composite
         def strat(draw):
             spec = draw(st.sampled_from(CLASS_SPECS))
-            return draw(mut.history_strategy(max_nodes=7, max_steps=25, faults="all", invalid=(mut.family_of(spec) == "NM"), class_specs=[spec]))
+            return draw(mut.history_strategy(max_nodes=7, max_steps=25, faults="all+evict", invalid=(mut.family_of(spec) == "NM"), class_specs=[spec]))
 
         acc.run_hypothesis(check_case, strat(), task["examples"], task["seed"])
 
